@@ -141,10 +141,12 @@ func getFlateReader(r io.Reader, dict []byte) io.Reader {
 		return flate.NewReaderDict(r, dict)
 	}
 	fr.(flate.Resetter).Reset(r, dict)
+	vpool(1, 1, fr)
 	return fr
 }
 
 func putFlateReader(fr io.Reader) {
+	vpool(2, 1, fr)
 	flateReaderPool.Put(fr)
 }
 
